@@ -63,7 +63,12 @@ theorem uvarintDecAux_ok_ext : ∀ (bs : Bytes) (i x s v n : Nat), uvarintDecAux
     i + 1 ≤ n ∧ n ≤ i + bs.length ∧ ∀ t, uvarintDecAux (bs ++ t) i x s = .ok (v, n) := by
   intro bs
   induction bs with
-  | nil => intro i x s v n h; simp only [uvarintDecAux] at h; split at h <;> cases h
+  | nil =>
+    intro i x s v n h
+    simp only [uvarintDecAux] at h
+    split at h
+    · cases h
+    · split at h <;> cases h
   | cons b bs ih =>
     intro i x s v n h
     simp only [uvarintDecAux, List.cons_append] at h ⊢
@@ -617,11 +622,16 @@ theorem uvarintDecAux_prefix : ∀ (bs t : Bytes) (i x s : Nat),
   induction bs with
   | nil =>
     intro t i x s
-    right
-    simp only [uvarintDecAux]
-    split
-    · exact Or.inl rfl
-    · exact Or.inr rfl
+    by_cases h10 : i ≥ 10
+    · left
+      cases t with
+      | nil => rfl
+      | cons b t => simp only [List.nil_append, uvarintDecAux, if_pos h10]
+    · right
+      simp only [uvarintDecAux, if_neg h10]
+      split
+      · exact Or.inl rfl
+      · exact Or.inr rfl
   | cons b bs ih =>
     intro t i x s
     simp only [List.cons_append, uvarintDecAux]
